@@ -2,6 +2,7 @@ package main
 
 import (
 	"fmt"
+	"go/types"
 	"net"
 	"strconv"
 	"strings"
@@ -560,34 +561,92 @@ func (in *Interp) formatOperand(fr *frame, arg Iface, verb byte) Value {
 	if arg.t == nil {
 		return nil
 	}
-	switch v := arg.v.(type) {
+	return in.formatValue(fr, arg.t, arg.v, verb, 0)
+}
+
+// formatValue renders v (of static type t) the way fmt does for %v %s %d %q, for the value shapes
+// that key-building code uses: strings, integers, booleans, Stringers, slices and plain structs.
+func (in *Interp) formatValue(fr *frame, t types.Type, v Value, verb byte, depth int) Value {
+	if depth > 4 {
+		return nil
+	}
+	// Stringer / error take precedence (except for %d)
+	if verb != 'd' {
+		if _, isPtrNil := v.(*Value); !(isPtrNil && v.(*Value) == nil) {
+			if hasMethod(in.prog, t, "String") {
+				r := in.invoke(fr, Iface{t: t, v: v}, "String")
+				switch r.(type) {
+				case string, *SymStr:
+					return r
+				}
+			}
+			if hasMethod(in.prog, t, "Error") {
+				return &SymStr{opaque: true}
+			}
+		}
+	}
+	switch x := v.(type) {
 	case string:
-		return v
+		return x
 	case *SymStr:
-		return v
+		return x
 	case *Term:
-		if v.sort == SBool {
-			if v.op == OConst {
-				return strconv.FormatBool(v.val == 1)
+		if x.sort == SBool {
+			if x.op == OConst {
+				return strconv.FormatBool(x.val == 1)
 			}
 			return nil
 		}
-		_, signed, ok := isIntType(arg.t)
+		_, signed, ok := isIntType(t)
 		if !ok {
 			return nil
 		}
-		return decString(v, signed)
-	}
-	// Stringer / error
-	if hasMethod(in.prog, arg.t, "String") && verb != 'd' {
-		r := in.invoke(fr, arg, "String")
-		switch r.(type) {
-		case string, *SymStr:
-			return r
+		return decString(x, signed)
+	case Iface:
+		if x.t == nil {
+			return "<nil>"
 		}
-	}
-	if hasMethod(in.prog, arg.t, "Error") && verb != 'd' {
-		return &SymStr{opaque: true}
+		return in.formatValue(fr, x.t, x.v, verb, depth+1)
+	case Slice:
+		st, ok := underlying(t).(*types.Slice)
+		if !ok {
+			return nil
+		}
+		var out Value = "["
+		for i, e := range x {
+			if i > 0 {
+				out = in.strConcat(out, " ")
+			}
+			p := in.formatValue(fr, st.Elem(), e, verb, depth+1)
+			if p == nil {
+				return nil
+			}
+			if ss, ok := p.(*SymStr); ok && ss.opaque {
+				return ss
+			}
+			out = in.strConcat(out, p)
+		}
+		return in.strConcat(out, "]")
+	case Struct:
+		st, ok := underlying(t).(*types.Struct)
+		if !ok {
+			return nil
+		}
+		var out Value = "{"
+		for i, f := range x {
+			if i > 0 {
+				out = in.strConcat(out, " ")
+			}
+			p := in.formatValue(fr, st.Field(i).Type(), f, verb, depth+1)
+			if p == nil {
+				return nil
+			}
+			if ss, ok := p.(*SymStr); ok && ss.opaque {
+				return ss
+			}
+			out = in.strConcat(out, p)
+		}
+		return in.strConcat(out, "}")
 	}
 	return nil
 }
